@@ -236,6 +236,26 @@ def closeSub : List SubLayer → Bool → Nat → Option Err × Nat
   | [], closeErr, n => (if closeErr then some .close else none, n + 1)
   | _ :: rest, closeErr, n => closeSub rest closeErr n
 
+/-- a sequence of `Subscribe` calls on a subscriber stack, the innermost subscriber refusing as `script` says (a caller
+    that retries a refused Subscribe): the result of every call -/
+def subscribeSeq (layers : List SubLayer) (script : List Bool) : List (Option Err) :=
+  script.map (subscribeErr layers)
+
+/-- bookkeeping of ONE transform decorator over a sequence of Subscribe calls (`true` = refused by the wrapped
+    subscriber): `subscribeWg.Add(1)` happens AFTER the error return, so only accepted calls are registered … -/
+def wgRegistered : List Bool → Nat
+  | [] => 0
+  | refused :: rest => (if refused then 0 else 1) + wgRegistered rest
+
+/-- … and every accepted call started one forwarding goroutine, which ends (`Done`) when the wrapped subscriber's Close
+    closes its channel.  `Close` returns when the registered count minus the ended goroutines is 0. -/
+def pumpsStarted : List Bool → Nat
+  | [] => 0
+  | refused :: rest => pumpsStarted rest + (if refused then 0 else 1)
+
+/-- seeded change round 3, C20/2: `Add(1)` in front of the wrapped Subscribe, no `Done()` on the error return -/
+def wgRegisteredEarly (script : List Bool) : Nat := script.length
+
 /-- a sequence of `Close()` calls on a subscriber stack, the innermost subscriber failing as `script` says (a caller
     that retries a failed Close): the result of every call and the number of calls that reached the innermost subscriber -/
 def closeSubSeq (layers : List SubLayer) : List Bool → Nat → List (Option Err) × Nat
